@@ -7,6 +7,16 @@
 
 #define G2C_NOT(x) _Generic((x), _Bool: !(x), default: ~(x))
 
+/* float -> integer conversions are defined exactly when the truncated value is representable */
+#define G2C_F2I_OK_long(d)   ((d) >= -0x1p63 && (d) < 0x1p63)
+#define G2C_F2I_OK_ulong(d)  ((d) > -1.0 && (d) < 0x1p64)
+#define G2C_F2I_OK_int(d)    ((d) > -2147483649.0 && (d) < 2147483648.0)
+#define G2C_F2I_OK_uint(d)   ((d) > -1.0 && (d) < 4294967296.0)
+#define G2C_F2I_OK_short(d)  ((d) > -32769.0 && (d) < 32768.0)
+#define G2C_F2I_OK_ushort(d) ((d) > -1.0 && (d) < 65536.0)
+#define G2C_F2I_OK_schar(d)  ((d) > -129.0 && (d) < 128.0)
+#define G2C_F2I_OK_uchar(d)  ((d) > -1.0 && (d) < 256.0)
+
 /* *, / and % of 64-bit integers and doubles.  Default: the C operator.  With G2C_ABSTRACT_MULDIV the
  * machine operation is an uninterpreted function -- the same symbol in rendered code and in the spec
  * functions of contracts/arith.h -- so "the code applies the operation to exactly these operand
